@@ -83,8 +83,9 @@ structure VarOK (p : Params) (c : Ctx) (M : State) (i : Nat) (v : Var) : Prop wh
   curLt : v.cur.regId < 32
   outLt : v.out.regId < 32
   phys : physAt c (groupOf v.cur.regType) v.cur.regId = some i
-  tok : ∃ tok, M.get (vloc v) = some tok ∧ tok.var = i ∧ Form p i v tok ∧
-        (v.done = true → v.cur.regId = v.out.regId ∧ tok.dv = true)
+  tok : ∃ tok, M.get (vloc v) = some tok ∧ tok.var = i ∧ (v.done = false → Form p i v tok) ∧
+        (v.done = true → v.cur.regId = v.out.regId ∧ tok.dv = true) ∧
+        (v.done = false → hasSwap p.cfg.arch (groupOf v.cur.regType) = true → tok = initTok p.vis i)
   fresh : v.done = false → hasSwap p.cfg.arch (groupOf v.cur.regType) = true → v.cur = p.src i
 
 structure WF (p : Params) (e : Emit) (M : State) : Prop where
